@@ -144,7 +144,7 @@ pub fn run(ctx: &Ctx) -> EvidenceMeta {
         }));
       }
     } else {
-      let n = (ctx.n(4000, 60_000) / s.proto.cost().min(20)).max(100);
+      let n = (ctx.n(10_000, 100_000) / s.proto.cost().min(20)).max(300);
       jobs.push(Box::new(move || ctx.prop(s, (gen::bytes32(), vec(random_op(), 0..=40)).prop_map(move |(seed, ops)| HistCase { proto: s.proto, seed, ops }), n)));
     }
   }
